@@ -119,7 +119,7 @@ def gen_job(verif_seed, tier, index):
                                                                  edge_order=_perm(e, len(rg["edges"])),
                                                                  flip=[i for i in range(len(rg["edges"])) if e.random() < 0.5])}
         members.append({"dim": "relabel", "hashseed": e.choice(histgen.PALETTE), "ops": [op], "observe": 0})
-    if rg["shape"] == "linear" and not rg.get("edge_attrs"):
+    if rg["shape"] == "linear" and not rg.get("edge_attrs") and not rg.get("tags"):
         op = dict(base)
         op["graph"] = {"kind": "seq", "seq": ffgen.seq_list(rg)}
         members.append({"dim": "relabel", "hashseed": e.choice(histgen.PALETTE), "ops": [op], "observe": 0})
